@@ -103,6 +103,17 @@ func checkC08(cx *Ctx, r *Report) {
 				if w.FuncKey(c.Parent()) == "provider.(*Response).sendBackResponse" {
 					continue
 				}
+				if sbf := w.Func("provider.(*Response).sendBackResponse"); sbf != nil {
+					piece := false
+					for _, g := range cx.privateHelpers(sbf) {
+						if g == c.Parent() {
+							piece = true
+						}
+					}
+					if piece {
+						continue
+					}
+				}
 				r.Fail("R-ORDER", "sso:redirect-in-step", w.InstrPos(c), "a step or error callback redirects the browser itself: acceptance must only happen after the whole chain passed")
 			}
 		}
